@@ -5,11 +5,16 @@ def dispatch (line : String) : String :=
   match line.trimAscii.toString.splitOn " " with
   | "C20" :: args => VtModel.Cache.handle args
   | "C07" :: args => VtModel.Path.handle args
+  | "C14" :: args => VtModel.Sched.handle args
   | "C13" :: args => VtModel.FileOffset.handle args
+  | "C12" :: args => VtModel.Crash.handle args
   | "C15" :: args => VtModel.BBoxProto.handle args
   | "C04" :: args => VtModel.Codec.handle args
   | "C17s" :: args => VtModel.Json.handleS args
   | "C17p" :: args => VtModel.Json.handleP args
+  | "C17t" :: args => VtModel.TileJson.handleT args
+  | "C17u" :: args => VtModel.TileJson.handleU args
+  | "C17m" :: args => VtModel.TileJson.handleM args
   | "C18" :: args => VtModel.Vpl.handle args
   | "C06" :: args => VtModel.Converter.handle args
   | "C11p" :: args => VtModel.Prim.handlePrim args
